@@ -185,15 +185,28 @@ pub fn replay(run: &[Value], _sub: &str) -> Vec<Value> {
 // ------------------------------------------------------------------------------------------------
 // valuations
 // ------------------------------------------------------------------------------------------------
-fn vars_of(es: &[&Expression]) -> Vec<Variable> {
-    let mut seen = BTreeSet::new();
-    let mut out = Vec::new();
-    for e in es {
-        for v in e.input_vars() {
+/// the variables of the expressions, in order of first occurrence (the harness' own traversal: `input_vars` is code
+/// under test and must not decide which variables get a value)
+fn collect_vars(e: &Expression, seen: &mut BTreeSet<String>, out: &mut Vec<Variable>) {
+    match e {
+        Expression::Var(v) => {
             if seen.insert(v.name.clone()) {
                 out.push(v.clone());
             }
         }
+        Expression::BinOp { lhs, rhs, .. } => {
+            collect_vars(lhs, seen, out);
+            collect_vars(rhs, seen, out);
+        }
+        Expression::UnOp { arg, .. } | Expression::Cast { arg, .. } | Expression::Subpiece { arg, .. } => collect_vars(arg, seen, out),
+        Expression::Const(_) | Expression::Unknown { .. } => (),
+    }
+}
+fn vars_of(es: &[&Expression]) -> Vec<Variable> {
+    let mut seen = BTreeSet::new();
+    let mut out = Vec::new();
+    for e in es {
+        collect_vars(e, &mut seen, &mut out);
     }
     out
 }
